@@ -60,6 +60,35 @@ theorem MJ.run_inv (L : Int) (ops : List MJOp) (s : MJ) (h : MJInv L s) (hL : 0 
 theorem MJ.init_inv (L : Int) (hL : 0 ≤ L) : MJInv L (MJ.init L) :=
   ⟨by simp [MJ.init], by simp [MJ.init]; omega, Or.inl rfl⟩
 
+/-! ### re-attaching after a restart -/
+
+def reattachOps (ids : List Nat) : List MJOp := ids.map fun id => MJOp.attempt id .queued true
+
+theorem MJ.run_reattach (L : Int) (ids : List Nat) : ∀ (s : MJ), s.limit = L →
+    (s.running ++ ids).Nodup → ((s.running.length + ids.length : Nat) : Int) ≤ L →
+    (s.run (reattachOps ids)).running = s.running ++ ids ∧ (s.run (reattachOps ids)).limit = L := by
+  induction ids with
+  | nil => intro s hl _ _; simp [reattachOps, MJ.run, hl]
+  | cons id ids ih =>
+    intro s hl hnd hlen
+    simp only [reattachOps, List.map_cons, MJ.run, MJ.step]
+    have hnot : id ∉ s.running := by
+      intro h
+      rw [List.nodup_append] at hnd
+      exact hnd.2.2 id h id (by simp) rfl
+    have hroom : ¬ (s.limit ≤ (s.running.length : Int)) := by
+      rw [hl]; simp only [List.length_cons] at hlen; omega
+    have hstep : (s.attempt id .queued true).1 = { s with running := s.running ++ [id] } := by
+      unfold MJ.attempt
+      simp only [MdState.cancelled, Bool.false_eq_true, if_false, hroom]
+      have : s.running.contains id = false := by simpa using hnot
+      rw [if_neg (by simpa using hnot)]
+    rw [hstep]
+    have := ih { s with running := s.running ++ [id] } hl
+      (by simpa [List.append_assoc] using hnd)
+      (by simp only [List.length_append, List.length_cons, List.length_nil] at hlen ⊢; omega)
+    simpa [reattachOps, List.append_assoc] using this
+
 /-! ### GetSystemReqs pieces -/
 
 theorem adaptive_pos (a r : Int) (h : r < 0) : 0 < adaptive a r := by
